@@ -8,7 +8,8 @@ import json, os, re, subprocess, sys, tempfile, shutil
 def sh(cmd, **kw):
     return subprocess.run(cmd, shell=True, capture_output=True, text=True, **kw)
 
-for sid in sys.argv[1:]:
+THEIRS = "--theirs" in sys.argv      # conflict blocks are resolved in favour of the seeded change (the fix touched the very line it replaces)
+for sid in [a for a in sys.argv[1:] if not a.startswith("--")]:
     d = f"/verif/seeded/{sid}"
     wt = tempfile.mkdtemp(prefix="rebase-", dir="/tmp"); os.rmdir(wt)
     sh(f"git -C /repo worktree add -q --detach {wt} HEAD")
@@ -21,6 +22,8 @@ for sid in sys.argv[1:]:
             p = os.path.join(wt, f)
             s = open(p).read()
             def both(m):
+                if THEIRS:
+                    return m.group(2)
                 return m.group(1) + ("\n\n" if m.group(1).strip() and m.group(2).strip() else "") + m.group(2)
             s2 = re.sub(r"<<<<<<< ours\n(.*?)=======\n(.*?)>>>>>>> theirs\n", both, s, flags=re.S)
             if "<<<<<<<" in s2 or "|||||||" in s2:
@@ -33,8 +36,9 @@ for sid in sys.argv[1:]:
         diff = sh(f"git -C {wt} diff -- src cmake").stdout
         open(f"{d}/patch.diff", "w").write(diff)
         m = json.load(open(f"{d}/meta.json"))
-        m["rebased"] = ("patch.diff re-created on top of later fix commits in /repo (three-way application; both sides had added text "
-                        "at the same place, both were kept); the 69 tests were re-run on the result")
+        m["rebased"] = ("patch.diff re-created on top of later fix commits in /repo (three-way application; " +
+                        ("the fix had touched the very line the seeded change replaces: the seeded side was kept" if THEIRS else
+                         "both sides had added text at the same place, both were kept") + "); the 69 tests were re-run on the result")
         json.dump(m, open(f"{d}/meta.json", "w"), indent=1, ensure_ascii=False)
         print(sid, "rebased:", t)
     finally:
